@@ -247,4 +247,82 @@ def run(ctx):
                 run.finding(Finding(R5, fid, "PublicKey::from_combination can be reached with an empty key list: the C library's argument check fails into a NULL callback and the process dies (a V4 slate with `sigs: []` and `coms` present is enough, on the foreign listener too)", site=c.site_of(f, b)))
     if n5 < 2:
         run.error("C09.R5: expected the two from_combination calls of Slate (pub_nonce_sum, pub_blind_sum), found %d" % n5)
+    R6 = "C09.R6"
+    run.rule(R6, "text handed to a dependency's hex decoder that panics on malformed text is validated first. Read in the pinned dependency sources (grin_util / grin_core / grin_keychain 5.3.3): grin_util::from_hex slices the text two bytes at a time and panics when a multi-byte character straddles a slice; Identifier::from_hex and BlindingFactor::from_hex unwrap the hex decode (any non-hex text panics); the secp_ser helpers and the serde visitors of Identifier / BlindingFactor call these on the raw field text", floor=20)
+    EXT6 = {
+        "grin_util::hex::from_hex": "non-ASCII text",
+        "grin_keychain::types::Identifier::from_hex": "any text that is not hex",
+        "grin_keychain::types::BlindingFactor::from_hex": "any text that is not hex",
+        "grin_core::libtx::secp_ser::blind_from_hex": "any text that is not hex",
+        "grin_core::libtx::secp_ser::commitment_from_hex": "non-ASCII text",
+        "grin_core::libtx::secp_ser::rangeproof_from_hex": "non-ASCII text",
+        "grin_core::libtx::secp_ser::pubkey_serde::deserialize": "non-ASCII text",
+        "grin_core::libtx::secp_ser::sig_serde::deserialize": "non-ASCII text",
+        "grin_core::libtx::secp_ser::option_sig_serde::deserialize": "non-ASCII text",
+        "grin_core::libtx::secp_ser::option_seckey_serde::deserialize": "non-ASCII text",
+        "grin_core::libtx::secp_ser::option_commitment_serde::deserialize": "non-ASCII text",
+    }
+    SERDE6 = ("grin_keychain::types::Identifier", "grin_keychain::types::BlindingFactor")
+    # not text from outside: the wallet's own records and files, validated or constant text (one reason each)
+    OWN6 = {
+        "grin_wallet_libwallet::types::OutputData": "LMDB record written by this wallet",
+        "grin_wallet_libwallet::types::TxLogEntry": "LMDB record written by this wallet",
+        "grin_wallet_libwallet::types::Context": "LMDB record written by this wallet",
+        "grin_wallet_libwallet::types::AcctPathMapping": "LMDB record written by this wallet",
+        "grin_wallet_libwallet::internal::updater::retrieve_outputs": "commitment string of the wallet's own output record",
+        "grin_wallet_libwallet::internal::updater::map_wallet_outputs": "commitment string of the wallet's own output record",
+        "grin_wallet_libwallet::internal::scan::collect_chain_outputs_rewind_hash": "owner::scan_rewind_hash admits only 64 ASCII hex digits before it calls the scan",
+        "grin_wallet_impls::lifecycle::seed::": "the wallet's own seed file (C12)",
+        "grin_wallet_impls::backends::lmdb::": "the wallet's own stored transaction file (C06.R4)",
+        "grin_wallet_libwallet::mwixnet::": "experimental mwixnet types: replies of the swap server the owner configured, not a wallet listener input",
+    }
+    n6 = 0
+    seen6 = set()
+    for fid, f in sorted(db.fns.items()):
+        if non_production(fid):
+            continue
+        for b, t in f.calls():
+            callee = t.get("f") or ""
+            what = None
+            if callee in EXT6:
+                what = (callee, EXT6[callee])
+            elif callee.endswith(("::next_value", "::next_element", "Deserialize::deserialize", "::next_value_seed", "::next_element_seed")):
+                blob = " ".join(str(t.get(k_) or "") for k_ in ("ga", "trself", "fa"))
+                for ty in SERDE6:
+                    if ty in blob:
+                        what = ("<%s as Deserialize>" % ty.split("::")[-1], "any text that is not hex")
+            if what is None:
+                continue
+            if callee in EXT6 and t["a"] and vf.const_of_operand(f, t["a"][0]) is not None:
+                continue  # a literal
+            own = None
+            probe6 = fid.split("impl serde::de::Deserialize<'de> for ")[1].split(">")[0] if "impl serde::de::Deserialize<'de> for " in fid else fid
+            for k_, why_ in OWN6.items():
+                if probe6.startswith(k_) or ("<" + k_) in probe6:
+                    own = why_
+            if callee in EXT6 and t["a"] and vf.has_call(vf.producers(f, t["a"][0]), "*str::as_str") is False and any(x[0] == "const" for x in vf.producers(f, t["a"][0])):
+                own = "a literal"
+            n6 += 1
+            if own:
+                run.instance(R6, {"in": pp.short(probe6), "dependency decoder": pp.short(what[0]), "not from outside": own, "site": c.site_of(f, b)}, held=True)
+                continue
+            # validated first? an is_ascii() / all(is_ascii_hexdigit) test of the same text whose true edge dominates the call
+            ok6 = False
+            for gb, gt in f.calls():
+                gname = gt.get("f") or ""
+                if gname.endswith(("str::is_ascii", "::is_ascii")) or (gname.endswith("Iterator::all") and "is_ascii_hexdigit" in str(gt.get("a"))):
+                    g = cfg.call_guard(f, gb)
+                    if g.ok and cfg.must_pass(f, g.ok, {b})[0]:
+                        ok6 = True
+            # the item a reader would look for: the decoded type for derived visitors, the function otherwise
+            item = fid
+            if "impl serde::de::Deserialize<'de> for " in fid:
+                item = fid.split("impl serde::de::Deserialize<'de> for ")[1].split(">")[0]
+            run.instance(R6, {"in": pp.short(item), "dependency decoder": pp.short(what[0]), "panics on": what[1], "validated first": ok6, "site": c.site_of(f, b)}, held=ok6)
+            key6 = (item, what[0])
+            if not ok6 and key6 not in seen6:
+                seen6.add(key6)
+                run.finding(Finding(R6, item, "text from outside reaches %s unvalidated, which panics on %s" % (pp.short(what[0]), what[1]), site=c.site_of(f, b)))
+    if n6 < 20:
+        run.error("C09.R6: only %d uses of the dependency hex decoders found in decoder scope (anchor missing)" % n6)
     run.not_decided += ["panics inside dependencies (age, bs58, bech32, serde_json, ring, grin_core::ser): no MIR for them here", "stack depth / recursion in serde_json for deeply nested input"]
